@@ -35,6 +35,51 @@ def tlc_error_text(r):
     return "TLC rc=%d on %s/%s:\n%s" % (r["rc"], r["module"], r["config"], "\n".join(r["tail"][-25:]))
 
 
+def replay_once(ctx, st, res, harness, env, out, summ, r, first, procs):
+    """one harness replay of the case file; fills res; returns True when the stage must stop (race report, no summary)"""
+    extra = [] if procs is None or not st.get("procs_stride") else ["-stride", str(st["procs_stride"])]
+    p = subprocess.run([harness, "replay", "-in", out, "-out", summ, "-prop", ctx["pid"],
+                        "-replaydir", ctx["replaydir"]] + extra, cwd=ctx["verif"], text=True, capture_output=True, env=env)
+    if st.get("race") and p.returncode == 66:
+        path = os.path.join(ctx["replaydir"], "%s-race-%s.txt" % (ctx["pid"], st["name"]))
+        open(path, "w").write(p.stderr[-20000:])
+        res["violations"].append(dict(replay=path, why="the Go race detector reported a data race while replaying %s: %s" % (
+            st["cfg"], " ".join(p.stderr.split("\n")[:12])[:600])))
+        res["evaluations"] = 0
+        return True
+    if not os.path.exists(summ):
+        res["infra"].append("harness replay produced no summary: " + p.stdout[-2000:] + p.stderr[-2000:])
+        return True
+    s = json.load(open(summ))
+    if first:
+        res["_first_summary"] = s
+    tag = "" if procs is None else " [GOMAXPROCS=%s]" % procs
+    if first:
+        res["evaluations"] = s["executions"]
+        res["validated"] = s["cases"]
+        res["nontrivial"] = s["distinct_nontrivial"]
+        res["features"] = s["features"]
+        res["must"] = s["must"]
+        res["known"] = s["known"]
+        res["samples"] = s["samples"] or []
+    else:
+        res["evaluations"] += s["executions"]
+        for k, v in (s["known"] or {}).items():
+            res["known"][k] = res["known"].get(k, 0) + v
+    if s["violations"]:
+        n0 = len(res["violations"])
+        blocks = re.split(r"(?m)^VIOLATION ", p.stdout)
+        for b in blocks[1:]:
+            m = re.match(r"property=\S+ replay=(\S+)\n((?:  .*\n?)*)", b)
+            if m:
+                res["violations"].append(dict(replay=m.group(1), why=m.group(2).strip() + tag))
+        for path in s["violation_replays"][len(res["violations"]) - n0:]:
+            res["violations"].append(dict(replay=os.path.abspath(os.path.join(ctx["verif"], path)), why=tag.strip()))
+    if s["infra"]:
+        res["infra"] += ["harness: " + n + tag for n in (s.get("infra_notes") or ["infra"])][:5]
+    return False
+
+
 def run_mc(ctx, st):
     out = os.path.join(ctx["work"], st["name"] + ".out")
     res = dict(name=st["name"], kind="mc", exhaustive=st["exhaustive"], tlc_runs=[], violations=[], infra=[])
@@ -63,39 +108,17 @@ def run_mc(ctx, st):
         # the same behaviours under the Go race detector: a report aborts the process with exit code 66
         harness = ctx["build_harness"](ctx["work"], race=True)
         env["GORACE"] = "halt_on_error=1 exitcode=66"
-    p = subprocess.run([harness, "replay", "-in", out, "-out", summ, "-prop", ctx["pid"],
-                        "-replaydir", ctx["replaydir"]], cwd=ctx["verif"], text=True, capture_output=True, env=env)
-    if st.get("race") and p.returncode == 66:
-        path = os.path.join(ctx["replaydir"], "%s-race-%s.txt" % (ctx["pid"], st["name"]))
-        open(path, "w").write(p.stderr[-20000:])
-        res["violations"].append(dict(replay=path, why="the Go race detector reported a data race while replaying %s: %s" % (
-            st["cfg"], " ".join(p.stderr.split("\n")[:12])[:600])))
-        res["evaluations"] = 0
-        return res
-    if not os.path.exists(summ):
-        res["infra"].append("harness replay produced no summary: " + p.stdout[-2000:] + p.stderr[-2000:])
-        return res
-    s = json.load(open(summ))
-    res["evaluations"] = s["executions"]
-    res["validated"] = s["cases"]
-    res["nontrivial"] = s["distinct_nontrivial"]
-    res["features"] = s["features"]
-    res["must"] = s["must"]
-    res["known"] = s["known"]
-    res["samples"] = s["samples"] or []
-    if s["violations"]:
-        why = {}
-        for line in p.stdout.splitlines():
-            pass
-        blocks = re.split(r"(?m)^VIOLATION ", p.stdout)
-        for b in blocks[1:]:
-            m = re.match(r"property=\S+ replay=(\S+)\n((?:  .*\n?)*)", b)
-            if m:
-                res["violations"].append(dict(replay=m.group(1), why=m.group(2).strip()))
-        for path in s["violation_replays"][len(res["violations"]):]:
-            res["violations"].append(dict(replay=os.path.abspath(os.path.join(ctx["verif"], path)), why=""))
-    if s["infra"]:
-        res["infra"] += ["harness: " + n for n in (s.get("infra_notes") or ["infra"])][:5]
+    first = True
+    for procs in [None] + list(st.get("procs") or []):
+        # the same cases again with another number of usable cores: a result does not depend on how much parallelism there is
+        if procs is not None:
+            env["GOMAXPROCS"] = str(procs)
+            summ = os.path.join(ctx["work"], "%s.procs%s.summary.json" % (st["name"], procs))
+        stop = replay_once(ctx, st, res, harness, env, out, summ, r, first, procs)
+        first = False
+        if stop:
+            return res
+    s = res.pop("_first_summary")
     if s["cases"] == 0:
         res["infra"].append("vacuous: %s produced no case (%s)" % (st["cfg"], "\n".join(r["tail"][-15:])))
     if st.get("min_cases") and s["cases"] < st["min_cases"]:
@@ -214,6 +237,8 @@ def run_design(ctx, st):
 
 # ------------------------------------------------------------------------------------------------- properties
 PROPS = {}
+# checks whose generated cases are replayed again under other GOMAXPROCS values (a result does not depend on the core count)
+CORE_COUNT_PROPS = {"C03", "C04", "C05", "C06", "C07", "C08", "C09", "C10", "C11", "C14"}
 
 PROPS["C14"] = dict(
     rule="BFS over every ordered pair of shapes (rank 0..4, extents 1..E) x {multi,uni}directional helper, sources carry "
